@@ -1,7 +1,99 @@
 /-
   C17 — import/export and stream I/O round-trip; faults are reported.
   Property theorems only; helper lemmas live in MpirProofs/Lemmas/Io.lean.
+  Every theorem is about the executable models in Mpir/Model/Io.lean, which the correspondence check
+  runs against the real library (fopencookie streams with injected faults) on every run.
 -/
 import MpirProofs.Lemmas.Io
 namespace Mpir.Io
+open Mpir
+
+/-! ## Raw format -/
+
+/-- `out_raw_format`: for every well-formed `z`, `mpz_out_raw` hands to `fwrite` exactly the documented
+    bytes: the 4-byte big-endian two's-complement byte count (negative for `z < 0`) followed by the
+    magnitude, big-endian, `byteLen |z|` bytes (hence no leading zero byte); on a healthy stream it
+    returns that length. -/
+theorem out_raw_format (z : Mpz) (h : z.WF) :
+    out_raw_m z = outRawBytes z.toInt ∧
+    (mpz_out_raw {} z).1 = 4 + byteLen z.toInt.natAbs ∧ (mpz_out_raw {} z).2.out = outRawBytes z.toInt ∧
+    outRawBytes z.toInt =
+      hdrBytes (if z.toInt < 0 then -(byteLen z.toInt.natAbs : Int) else byteLen z.toInt.natAbs)
+        ++ beBytes (byteLen z.toInt.natAbs) z.toInt.natAbs ∧
+    beVal (beBytes (byteLen z.toInt.natAbs) z.toInt.natAbs) = z.toInt.natAbs ∧
+    (z.toInt ≠ 0 → (beBytes (byteLen z.toInt.natAbs) z.toInt.natAbs).headD 0 ≠ 0) := by
+  have e := out_raw_m_eq z h
+  have hl : (outRawBytes z.toInt).length = 4 + byteLen z.toInt.natAbs := by simp [outRawBytes, hdrBytes]
+  have hne : outRawBytes z.toInt ≠ [] := by intro h0; rw [h0] at hl; simp at hl; omega
+  refine ⟨e, ?_, ?_, rfl, ?_, ?_⟩
+  · simp [mpz_out_raw, OStream.write, e, hl, hne]
+  · simp [mpz_out_raw, OStream.write, e, hne]
+  · rw [beVal_beBytes]; exact Nat.mod_eq_of_lt (lt_pow_byteLen _)
+  · intro hne; exact beBytes_head_ne_zero (by omega)
+
+-- non-vacuity: -(2^64 + 5) is written as fffffff7 01 00 00 00 00 00 00 00 05
+example : out_raw_m ⟨2, -2, [5, 1]⟩ = [255, 255, 255, 247, 1, 0, 0, 0, 0, 0, 0, 0, 5] := by decide +kernel
+
+/-- `inp_raw_total`: for EVERY byte stream (any 4-byte header, any data, truncated anywhere), every
+    well-formed destination and whatever the allocator puts into newly allocated limbs, `mpz_inp_raw`
+    leaves a well-formed destination and either returns 0, or returns `4 + |count|` having consumed
+    exactly those bytes and stored sign(count)·(big-endian value of the data).
+    (False for the code before commit 23eb012 — see the example below.) -/
+theorem inp_raw_total (x : Mpz) (hx : x.WF) (s : Stream) (hs : Bytes s.bytes) (junk : Nat → Nat)
+    (hj : ∀ i, junk i < B) :
+    (mpz_inp_raw x s junk).2.1.WF ∧
+    ((mpz_inp_raw x s junk).1 = 0 ∨
+     ((mpz_inp_raw x s junk).1 = 4 + (csizeOf (s.avail.take 4)).natAbs ∧
+      (mpz_inp_raw x s junk).2.2 = s.avail.drop (4 + (csizeOf (s.avail.take 4)).natAbs) ∧
+      (mpz_inp_raw x s junk).2.1.toInt =
+        (if csizeOf (s.avail.take 4) ≥ 0 then (beVal ((s.avail.drop 4).take (csizeOf (s.avail.take 4)).natAbs) : Int)
+         else -(beVal ((s.avail.drop 4).take (csizeOf (s.avail.take 4)).natAbs) : Int)))) := by
+  have ha : Bytes s.avail := by
+    unfold Stream.avail; split
+    · exact hs
+    · exact Bytes_take hs _
+  obtain ⟨wf, h⟩ := inp_raw_rd_spec x hx s.avail ha junk hj
+  refine ⟨wf, ?_⟩
+  unfold mpz_inp_raw
+  split at h
+  · right; obtain ⟨h1, h2, h3⟩ := h; exact ⟨by rw [h1]; omega, h2, h3⟩
+  · left; exact h.1
+
+-- non-vacuity: a negative header with a leading zero byte (GMP 1 style), trailing data left unread
+example : mpz_inp_raw ⟨1, 0, [0]⟩ ⟨[255, 255, 255, 253, 0, 1, 2, 9], none⟩ (fun _ => 0)
+    = (7, ⟨1, -1, [258]⟩, [9]) := by decide +kernel
+
+/-- Why the fix matters: the code BEFORE commit 23eb012 violates `inp_raw_total` on the corpus input
+    (header announces 16 bytes, 3 follow): it returns 0 but leaves `SIZ = 2` over a zero top limb. -/
+example : (mpz_inp_raw_unfixed ⟨1, 0, [0]⟩ ⟨[0, 0, 0, 16, 1, 2, 3], none⟩ (fun _ => 0)).1 = 0 ∧
+    ¬ (mpz_inp_raw_unfixed ⟨1, 0, [0]⟩ ⟨[0, 0, 0, 16, 1, 2, 3], none⟩ (fun _ => 0)).2.1.WF := by decide +kernel
+-- the repaired code on the same input
+example : (mpz_inp_raw ⟨1, 0, [0]⟩ ⟨[0, 0, 0, 16, 1, 2, 3], none⟩ (fun _ => 0)).1 = 0 ∧
+    (mpz_inp_raw ⟨1, 0, [0]⟩ ⟨[0, 0, 0, 16, 1, 2, 3], none⟩ (fun _ => 0)).2.1.WF := by decide +kernel
+
+/-- `raw_roundtrip`: what `mpz_out_raw` writes for `v` (whose byte count fits the 31-bit header field) is
+    read back by `mpz_inp_raw` as `v`, consuming exactly those bytes, whatever follows in the stream. -/
+theorem raw_roundtrip (v : Int) (hv : byteLen v.natAbs < 2 ^ 31) (x : Mpz) (hx : x.WF) (rest : List Nat)
+    (hr : Bytes rest) (junk : Nat → Nat) (hj : ∀ i, junk i < B) :
+    (mpz_inp_raw x ⟨outRawBytes v ++ rest, none⟩ junk).1 = 4 + byteLen v.natAbs ∧
+    (mpz_inp_raw x ⟨outRawBytes v ++ rest, none⟩ junk).2.1.toInt = v ∧
+    (mpz_inp_raw x ⟨outRawBytes v ++ rest, none⟩ junk).2.1.WF ∧
+    (mpz_inp_raw x ⟨outRawBytes v ++ rest, none⟩ junk).2.2 = rest := by
+  have hb : Bytes (outRawBytes v ++ rest) := Bytes_append.mpr ⟨outRawBytes_bytes v, hr⟩
+  obtain ⟨wf, h⟩ := inp_raw_rd_spec x hx (outRawBytes v ++ rest) hb junk hj
+  obtain ⟨e1, e2, e3, e4⟩ := outRaw_parts v hv rest
+  unfold mpz_inp_raw Stream.avail
+  simp only
+  rw [e1] at h
+  have hlen : (outRawBytes v ++ rest).length = 4 + byteLen v.natAbs + rest.length := by
+    simp [outRawBytes, hdrBytes]; omega
+  rw [if_pos ⟨by omega, by rw [e4]; omega⟩] at h
+  obtain ⟨h1, h2, h3⟩ := h
+  refine ⟨by rw [h1]; omega, ?_, wf, by rw [h2, e3]⟩
+  rw [h3, e2]
+
+-- non-vacuity
+example : (mpz_inp_raw ⟨1, 0, [0]⟩ ⟨outRawBytes (-18446744073709551621) ++ [7, 7], none⟩ (fun _ => 1)).2.1.toInt
+    = -18446744073709551621 := by decide +kernel
+
 end Mpir.Io
